@@ -59,6 +59,12 @@ func loadFindings() []Finding {
 	return f.Findings
 }
 
+// checkStart / deadlineSec: the quick tier must end well inside the 900 s that a check run on
+// every change may take; jobs are cut off (their partial reports are still used) when the
+// deadline is reached
+var checkStart = time.Now()
+var deadlineSec = 0
+
 func runJob(j Job, known []string, scratch string, idx int, mut string) jobResult {
 	t0 := time.Now()
 	out := filepath.Join(scratch, fmt.Sprintf("job%d.json", idx))
@@ -112,6 +118,15 @@ func runJob(j Job, known []string, scratch string, idx int, mut string) jobResul
 	if to == 0 {
 		to = 600
 	}
+	if deadlineSec > 0 {
+		left := deadlineSec - int(time.Since(checkStart).Seconds())
+		if left < 20 {
+			return jobResult{job: j, err: "not started: the check's overall deadline was reached"}
+		}
+		if to > left {
+			to = left
+		}
+	}
 	// memory cap per engine process (address space), then the engine itself
 	memKB := 24 * 1024 * 1024
 	sh := fmt.Sprintf("ulimit -v %d; exec timeout -k 5 %d %s \"$@\"", memKB, to, filepath.Join(verifRoot, "bin", "gobmc"))
@@ -148,6 +163,7 @@ func main() {
 	mut := flag.String("mut", "", "engine overlay (self-test): /repo/x.go=/path/y.go")
 	listOnly := flag.Bool("list", false, "list the jobs of the property and exit")
 	onlyH := flag.String("only", "", "run only jobs whose harness name contains this")
+	deadline := flag.Int("deadline", -1, "overall wall-clock budget in seconds (default: 780 for quick, none for thorough)")
 	flag.Parse()
 	if t := os.Getenv("VERIF_TIER"); t != "" && !isFlagSet("tier") {
 		*tier = t
@@ -181,6 +197,13 @@ func main() {
 			}
 		}
 		jobs = js
+	}
+	deadlineSec = *deadline
+	if deadlineSec < 0 {
+		deadlineSec = 0
+		if *tier == "quick" {
+			deadlineSec = 780
+		}
 	}
 	if *listOnly {
 		for _, j := range jobs {
